@@ -99,6 +99,43 @@ Proof. intros Hv Hm Hy Hyj Hne. destruct (verify pk (upd j v ms) s) eqn:E; [exfa
   destruct (fmul_eq0 K _ _ E') as [|E'']; [contradiction|]. apply Hne. now apply (fsub_eq0 K). Qed.
 
 (** unblinding with another factor *)
+(** ** why key exponents and signature bases must be independent draws (what the generation checks of C19 / C13 watch).
+    (1) moving value [d] from coordinate [j] to coordinate [i] changes <y~, m> by (y~_i - y~_j) * d: a signature stays valid
+    exactly when the two exponents coincide (or d = 0) - so with pairwise different exponents every such move is rejected,
+    and with equal exponents every such move is accepted. *)
+Theorem moved_value_iff (pk : pkey K) ms s i j d : verify pk ms s = true ->
+  (i < length ms)%nat -> (j < length ms)%nat -> (i < length (pk_y2s pk))%nat -> (j < length (pk_y2s pk))%nat -> i <> j ->
+  (verify pk (upd i (nth i ms f0 + d) (upd j (nth j ms f0 - d) ms)) s = true <->
+   (nth i (pk_y2s pk) f0 - nth j (pk_y2s pk) f0) * d = f0).
+Proof. intros Hv Hi Hj Hyi Hyj Hij.
+  rewrite (verify_other_message pk ms _ s Hv).
+  rewrite (ip_upd K) by (rewrite ?upd_length; assumption).
+  rewrite (ip_upd K) by assumption.
+  rewrite (nth_upd_other i j) by assumption.
+  split; intros E.
+  - transitivity (ip (pk_y2s pk) ms + nth j (pk_y2s pk) f0 * (nth j ms f0 - d - nth j ms f0)
+                  + nth i (pk_y2s pk) f0 * (nth i ms f0 + d - nth i ms f0) - ip (pk_y2s pk) ms); [ring|].
+    rewrite <- E. ring.
+  - transitivity (ip (pk_y2s pk) ms + (nth i (pk_y2s pk) f0 - nth j (pk_y2s pk) f0) * d); [rewrite E; ring | ring]. Qed.
+
+Corollary moved_value_rejected (pk : pkey K) ms s i j d : verify pk ms s = true ->
+  (i < length ms)%nat -> (j < length ms)%nat -> (i < length (pk_y2s pk))%nat -> (j < length (pk_y2s pk))%nat -> i <> j ->
+  nth i (pk_y2s pk) f0 <> nth j (pk_y2s pk) f0 -> d <> f0 ->
+  verify pk (upd i (nth i ms f0 + d) (upd j (nth j ms f0 - d) ms)) s = false.
+Proof. intros Hv Hi Hj Hyi Hyj Hij Hne Hd.
+  destruct (verify pk (upd i (nth i ms f0 + d) (upd j (nth j ms f0 - d) ms)) s) eqn:E; [exfalso|reflexivity].
+  apply (moved_value_iff pk ms s i j d Hv Hi Hj Hyi Hyj Hij) in E.
+  destruct (fmul_eq0 K _ _ E) as [E'|E']; [|contradiction]. apply Hne. now apply (fsub_eq0 K). Qed.
+
+(** (2) two signatures made with ONE base h on messages m0 <> m1 (single-message key) give, by interpolation, a valid signature
+    on EVERY message m - so published digit signatures must not share their base. *)
+Theorem shared_base_signatures_forge (sk : skey K) (pk : pkey K) (h m0 m1 m : K) : key_ok sk pk -> h <> f0 -> m1 - m0 <> f0 ->
+  length (sk_ys sk) = 1%nat ->
+  let s0 := sign sk h [m0] in let s1 := sign sk h [m1] in
+  verify pk [m] (h, snd s0 + (m - m0) / (m1 - m0) * (snd s1 - snd s0)) = true.
+Proof. intros Hk Hh Hm Hl s0 s1. subst s0 s1. apply (verify_key_ok sk pk _ _ Hk). unfold sign. cbn [fst snd]. split; [exact Hh|].
+  destruct (sk_ys sk) as [|y [|? ?]]; try discriminate. cbn [ip]. field. exact Hm. Qed.
+
 Theorem wrong_bf_rejects (pk : pkey K) ms s bf bf' : pk_g2 pk <> f0 -> bf' <> bf ->
   verify pk ms (unblind bf s) = true -> verify pk ms (unblind bf' s) = false.
 Proof. intros Hg Hb Hv. apply verify_false_iff. apply verify_iff in Hv.
